@@ -42,6 +42,12 @@ func structLits(fn *ssa.Function, match func(types.Type) bool) []map[string]ssa.
 			return
 		}
 		m := map[string]ssa.Value{}
+		// a local that receives a whole struct value (a spilled parameter, a copy) is not a literal
+		for _, ref := range *a.Referrers() {
+			if st, ok := ref.(*ssa.Store); ok && st.Addr == ssa.Value(a) {
+				return
+			}
+		}
 		for _, ref := range *a.Referrers() {
 			fa, ok := ref.(*ssa.FieldAddr)
 			if !ok {
